@@ -27,6 +27,7 @@ def make_cfg(rng):
     cfg['p_say'] = rng.choice([0.0, 0.0, 0.2, 0.5])
     cfg['n_modules'] = (1, 1)
     cfg['n_funcs'] = (1, 3)
+    cfg['forms'] = list(gen.SIMPLE_FORMS) + ['emitop', 'emitnoeol', 'emitnoeol']
     if rng.random() < 0.25:
         cfg['async_forms'] = list(gen.ASYNC_FORMS)
         cfg['p_async'] = 0.3
